@@ -20,6 +20,7 @@ CONSTANTS
   KFV1Hist = FALSE
   MaxOps = 9
   PreT = {}
+  TSActs = {"Commit"}
   Balanced = FALSE
   EmitMode = "class"
 VIEW View
